@@ -58,11 +58,17 @@ func CreateMirror(unpacker unpackFn) rio.MirrorFunc {
 		// Prepare to scan this as we process.
 		//  It would be unfortunate to accidentally foist corrupted or
 		//  wrongly identified content onto a mirror.
-		reader = flippingReader{reader, wc}
+		flipper := &flippingReader{read: reader, dup: wc}
+		reader = flipper
 		afs := nilFS.New()
 
 		// We can ignore the pre/post filter wareIDs, since we know its a no-mutation filter.
 		gotWare, _, err := unpacker(ctx, afs, api.FilesetUnpackFilter_Lossless, wareID, reader, mon)
+		if flipper.dupErr != nil {
+			// A failed write of the copy reaches the unpacker as a read error at best; if it hit the
+			//  last chunk read, nobody asks the reader again and it would go unnoticed entirely.
+			return api.WareID{}, Errorf(rio.ErrWarehouseUnwritable, "error while writing to mirror target: %s", flipper.dupErr)
+		}
 		if err != nil {
 			// If errors at this stage: still return a blank wareID, because
 			//  we haven't finished *uploading* it.
@@ -90,24 +96,28 @@ func CreateMirror(unpacker unpackFn) rio.MirrorFunc {
 
 // Proxy read calls, also copying each buffer into another write.
 type flippingReader struct {
-	read io.ReadCloser
-	dup  io.Writer
+	read   io.ReadCloser
+	dup    io.Writer
+	dupErr error // first error writing to dup, if any
 }
 
-func (fr flippingReader) Read(b []byte) (int, error) {
+func (fr *flippingReader) Read(b []byte) (int, error) {
 	n, err := fr.read.Read(b)
 	if err == nil || err == io.EOF {
 		n2, err2 := fr.dup.Write(b[:n])
-		if n2 < n {
-			return n, io.ErrShortWrite
+		if err2 == nil && n2 < n {
+			err2 = io.ErrShortWrite
 		}
 		if err2 != nil {
+			if fr.dupErr == nil {
+				fr.dupErr = err2
+			}
 			return n, err2
 		}
 	}
 	return n, err
 }
 
-func (fr flippingReader) Close() error {
+func (fr *flippingReader) Close() error {
 	return fr.read.Close()
 }
